@@ -399,7 +399,16 @@ func (c *Contracts) loadFile(path string) error {
 					if i < 0 {
 						return fmt.Errorf("%s:%d: hint N: expr", path, s.line)
 					}
-					n, err := strconv.Atoi(strings.TrimSpace(strings.TrimPrefix(strings.TrimSpace(cl.Text[:i]), "call")))
+					head := strings.TrimSpace(cl.Text[:i])
+					before := false
+					if strings.HasPrefix(head, "before ") {
+						before = true
+						head = strings.TrimSpace(strings.TrimPrefix(head, "before "))
+					}
+					n, err := strconv.Atoi(strings.TrimSpace(strings.TrimPrefix(head, "call")))
+					if before {
+						n = -n
+					}
 					if err != nil {
 						return fmt.Errorf("%s:%d: hint N: expr", path, s.line)
 					}
